@@ -157,6 +157,19 @@ CHECKS["C08"] = dict(
     note="toml text layer and syntax errors outside; identifier/version grammars are C09's; LayerContentMetadata<M> is exercised in C01/C02; "
          "Process/Slice/WorkingDirectory not yet covered. " + BASE_NOTE)
 
+CHECKS["C18"] = dict(
+    text="Bounded model checking from MIR of Inventory::{resolve, partial_resolve} (closures and the nested partial_max_by_key included) "
+         "and Checksum::{from_str, serialize}: 0..3 (quick) / 0..4 (thorough) artifacts with arbitrary os/arch, versions as SMT integers "
+         "(total order incl. ties for resolve; 2-dimensional product order, into which every poset on <= 4 elements embeds, for "
+         "partial_resolve), an arbitrary requirement predicate (one Boolean per artifact) and every os x arch query. The solver decides "
+         "that the result matches all three criteria and no matching artifact is strictly greater, and None <=> nothing matches. "
+         "Checksum::from_str is decided on strings of unbounded length against `sha256:<hex>` with the digest length scaled down to 2 / 4 "
+         "bytes; parse(render(c)) == c.",
+    design_ref="DESIGN.md §5 C18",
+    technique="symbolic execution of rustc MIR (mirsym) with version ranks and the requirement as SMT variables + z3 (strings/regex for checksums); witness replay on the real crate",
+    note="Lawful Ord/PartialOrd assumed; hex::decode/encode summarised by their contract; real digest lengths (32/64 bytes) exceed what the string "
+         "solver decides in time (scaled-down lengths stated); Inventory<->TOML round trip not covered yet. " + BASE_NOTE)
+
 NOT_YET = "check not built yet in this round (see DESIGN.md §9 build order); no claim is made"
 NOT_APPLICABLE = {}
 ALL = [f"C{i:02d}" for i in range(1, 21)]
